@@ -27,6 +27,10 @@ fn coordinate_pairs_accepted_iff_legal_played_exactly_rejected_without_effect() 
                 Ok(m) => {
                     assert!(!named.is_empty(), "{}: {}->{} accepted but names no legal move", name, f, t);
                     assert!(named.iter().any(|l| l.to_uci() == m.to_uci()), "{}: {}->{} played {} which is not one of the named moves", name, f, t, m);
+                    // a pair that names a promotion promotes to a queen
+                    if named.iter().any(|l| l.to_uci().len() == 5) {
+                        assert!(m.to_uci().ends_with('q'), "{}: {}->{} names a promotion but played {} (not the queen promotion)", name, f, t, m.to_uci());
+                    }
                     let mut expect = b0.clone();
                     m.apply(&mut expect).unwrap();
                     assert!(snapshot_position(game.board()) == snapshot_position(&expect), "{}: {}->{} board is not the successor", name, f, t);
@@ -62,6 +66,28 @@ fn engine_move_is_a_legal_move_whenever_one_exists() {
 /// C14, notation half (bounded only: strings are outside the deductive check): along games played by typing
 /// labels, every label the engine lists for a legal move is accepted and plays exactly that move; labels that
 /// are legal only for the other side, or only in the previous position, are rejected without effect.
+/// every label the engine lists - under-promotions, captures with check, castling included - plays ITS move
+#[test]
+fn every_listed_label_plays_its_own_move() {
+    let mut ps = positions();
+    ps.push(("under-promotions with check".into(), setup(&[(E1, Piece::King, Color::White), (E7, Piece::Pawn, Color::White), (H8, Piece::King, Color::Black), (D8, Piece::Rook, Color::Black)], Color::White)));
+    ps.push(("black promotes".into(), setup(&[(E8, Piece::King, Color::Black), (B2, Piece::Pawn, Color::Black), (H1, Piece::King, Color::White), (A1, Piece::Knight, Color::White)], Color::Black)));
+    for (name, b0) in ps {
+        let listed = Game::from_board(b0.clone(), 1).enumerated_candidate_moves();
+        assert!(!listed.is_empty(), "{}: no moves listed", name);
+        for (expected_move, label) in listed {
+            let mut game = Game::from_board(b0.clone(), 1);
+            let mut expect = b0.clone();
+            expected_move.apply(&mut expect).unwrap();
+            let played = game.apply_chess_move_from_raw_algebraic_notation(label.clone())
+                .unwrap_or_else(|e| panic!("{}: the listed label `{}` was rejected: {}", name, label, e));
+            assert!(played.to_uci() == expected_move.to_uci(), "{}: `{}` played {} instead of {}", name, label, played.to_uci(), expected_move.to_uci());
+            assert!(snapshot_position(game.board()) == snapshot_position(&expect), "{}: board after `{}` is not the successor of {}", name, label, expected_move.to_uci());
+            assert!(game.last_move().map(|m| m.to_uci()) == Some(expected_move.to_uci()), "{}: `{}` recorded as {:?}", name, label, game.last_move().map(|m| m.to_uci()));
+        }
+    }
+}
+
 #[test]
 fn typed_labels_accepted_iff_legal_played_exactly_rejected_without_effect() {
     // two crafted lines in which a placement recurs with the OTHER side to move (tempo loss), then random games
